@@ -242,6 +242,23 @@ def check_unlocated(ctx, schema, base, stream, label, text, located_ast, located
                      "verdict on the located parse of the same text", dict(base, unlocated=kind, located=located_msgs[:5], got=msgs[:5]))
 
 
+def _has_empty_name(doc):
+    from py_gql.lang import ast as _ast
+    stack = list(doc.definitions)
+    while stack:
+        n = stack.pop()
+        if isinstance(n, _ast.FragmentDefinition) and not n.name.value:
+            return True
+        if isinstance(n, _ast.Field) and (not n.name.value or (n.alias is not None and not n.alias.value)):
+            return True
+        if isinstance(n, _ast.FragmentSpread) and not n.name.value:
+            return True
+        ss = getattr(n, "selection_set", None)
+        if ss is not None:
+            stack.extend(ss.selections)
+    return False
+
+
 def one_document(ctx, schema, holder, dump, sdl, enum_kind, label, text, variables, opname, lean_batch, stream, seeds=None):
     from py_gql.lang import parse
     from py_gql.exc import GraphQLSyntaxError
@@ -257,6 +274,11 @@ def one_document(ctx, schema, holder, dump, sdl, enum_kind, label, text, variabl
         return "syntax"
     ctx.count()
     base = {"sdl": sdl, "enum_kind": enum_kind, "document": text, "variables": variables, "operation_name": opname, "label": label}
+    # parser guarantee assumed by accepted_cannot_go_wrong_merged (hne, AliasesNonEmpty; proved for the parser MODEL:
+    # Props/C05_names.lean parsed_names_nonempty): no fragment name, alias, field name or spread name is empty
+    if _has_empty_name(ast):
+        ctx.fail("corr:empty-name-in-parsed-document", "parse() returned a document with an empty fragment name / alias / field name "
+                 "(hypotheses hne / AliasesNonEmpty of Props/C05_overlap.lean)", base, kind="correspondence")
     try:
         v = validate_ast(schema, ast)
     except RecursionError as e:
@@ -562,6 +584,12 @@ FIXED = [
     ("nested-subconflict-abstract", "{ n { b { x: id } } n { b { x: t } ... on Ob { b { x: a } } } }", {}),
     ("nested-subconflict-type", "{ u { ... on Ob { b { x: a } } ... on Other { b { x: id } } } }", {}),
     ("nested-subconflict-two", "{ b { x: id b { y: id } } b { x: a b { y: a } } }", {}),
+    # seeded C05-3 (missed at /repo 6013951: its recorded signature was another seed's): list literals one of which is a strict
+    # prefix of the other are DIFFERENT arguments (`_same_value` must not zip without a length check)
+    ("prefix-list-empty-vs-one", "{ a(l: []) a(l: [1]) }", {}),
+    ("prefix-list-one-vs-two", "{ a(l: [1, 2]) a(l: [1]) }", {}),
+    ("prefix-list-nested-fragment", "{ b { a(l: [3]) ...PL } } fragment PL on Ob { a(l: [3, 4]) }", {}),
+    ("prefix-list-variables", "query($p: Int, $q: Int){ a(l: [$p]) a(l: [$p, $q]) }", {"p": 1, "q": 2}),
     ("null-literal-vs-default", "{ lim lim(limit: null) }", {}),
     ("null-literal-vs-default-reversed", "{ lim(limit: null) lim }", {}),
     ("null-literal-vs-default-object", "{ lim(o: null) lim }", {}),
@@ -650,6 +678,19 @@ DIVERGENT = [
 ]
 DIVERGENT_SEEDS = [0, 1, 2, 3, 5, 8, 13, 21]
 
+# mutation trial ex2/M4: a fragment on an INTERFACE inside a union-typed field must not apply to a union member that has
+# a field of the same name but does not implement the interface (shape: the key must be absent for that member)
+LOOKALIKE_SDL = ("type Query { thing: Thing, things: [Thing!] }\n"
+                 "interface Pet { name: String }\n"
+                 "type Dog implements Pet { name: String, bark: Int }\n"
+                 "type Robot { id: Int, name: String }\n"
+                 "union Thing = Dog | Robot\n")
+LOOKALIKE = [
+    ("lookalike-member-inline", "{ thing { __typename ... on Pet { name } ... on Robot { id } } things { __typename ... on Pet { name } } }", {}),
+    ("lookalike-member-spread", "{ things { __typename ...P ... on Robot { id } } t2: thing { ...P } } fragment P on Pet { n: name }", {}),
+]
+LOOKALIKE_SEEDS = list(range(10))
+
 
 # ---------------------------------------------------------------------------
 # NAMED PROBES of scale (no randomness): documents the PARSER accepts (it nests to ~250 levels) at depth 50 (must be
@@ -733,6 +774,9 @@ def fixed_cases(ctx, lean_batch):
     schema, holder, dump = X.build(DIVERGENT_SDL, 0)
     for label, text, vs in DIVERGENT:
         one_document(ctx, schema, holder, dump, DIVERGENT_SDL, 0, label, text, vs, None, lean_batch, "fixed", seeds=DIVERGENT_SEEDS)
+    schema, holder, dump = X.build(LOOKALIKE_SDL, 0)
+    for label, text, vs in LOOKALIKE:
+        one_document(ctx, schema, holder, dump, LOOKALIKE_SDL, 0, label, text, vs, None, lean_batch, "fixed", seeds=LOOKALIKE_SEEDS)
     # one field node leading two different merged node lists in one request (seeded C05-12 / C04-11): fixed worlds
     schema, holder, dump = X.build(LN.FIXED_SDL, 0)
     for label, text, vs in LN.FIXED_DOCS:
@@ -745,6 +789,46 @@ def fixed_cases(ctx, lean_batch):
         one_document(ctx, schema, holder, dump, OM.FIXED_SDL, 0, label, text, vs, None, lean_batch, "fixed", seeds=OM.FIXED_SEEDS)
 
 
+def edoc_tie(ctx, batch):
+    """The bridge theorems (Props/C05_bridge.lean, C05_overlap*.lean) speak about `eDoc s env d`, the Lean translation of the
+    VALIDATOR-side document `d`; the driver executes the executor-side JSON built by exec_common.doc_to_json. Both are sent:
+    the driver answers whether `eDoc` of the one IS the other (field locations apart) and evaluates the static document
+    checks of accepted_cannot_go_wrong_computable (`docChecksB`) on the validator-side document."""
+    from py_gql.lang import parse
+    from corr import C06_model as M
+    reqs, items = [], []
+    for dump, c, label in batch:
+        try:
+            vdoc = M.doc_to_model(parse(c.text))
+        except M.NotModelled:
+            ctx.stat("edoc:not-modelled")
+            continue
+        r = K.lean_request(dump, c)
+        reqs.append({"op": "edoc", "schema": r["schema"], "doc": r["doc"], "vars": r["vars"], "vdoc": vdoc})
+        items.append((c, label))
+    if not reqs:
+        return
+    for (c, label), a in zip(items, ctx.driver.ask(reqs)):
+        if "same" not in a:
+            ctx.fail("corr:driver-error:edoc", "driver could not answer", c.replay_data({"answer": a}), kind="correspondence")
+            continue
+        ctx.stat("edoc:same:%s" % a["same"])
+        if a["same"] is False:
+            ctx.fail("corr:eDoc-differs-from-executed-document:%s" % (label or K.features_sig(c.text)),
+                     "the translation eDoc of the validator-side document (what the soundness theorems speak about) is not the "
+                     "executor-side document the driver executes",
+                     c.replay_data({"label": label, "edoc": a.get("edoc"), "doc": a.get("doc")}), kind="correspondence")
+        # ids / aliases / names false on a PARSED document = bug of the translation or of the parser guarantee;
+        # meta / no_introspection false = property of the input (the theorem does not apply): counted
+        for k in ("ids", "aliases", "names"):
+            if a.get(k) is False:
+                ctx.fail("corr:doc-check-false:%s" % k, "static document check %s of accepted_cannot_go_wrong_computable is false on a parsed, "
+                         "validator-accepted document" % k, c.replay_data({"label": label}), kind="correspondence")
+        ctx.stat("edoc:doc-checks:%s" % a.get("doc_checks"))
+        if a.get("doc_checks") is False:
+            ctx.stat("edoc:theorem-not-applicable:%s" % ",".join(k for k in ("meta", "no_introspection") if a.get(k) is False))
+
+
 def flush_lean(ctx, batch):
     reqs = []
     for dump, c, label in batch:
@@ -753,6 +837,7 @@ def flush_lean(ctx, batch):
         r["valid"] = True
         reqs.append(r)
     answers = ctx.driver.ask(reqs)
+    edoc_tie(ctx, batch)
     for (dump, c, label), a in zip(batch, answers):
         ctx.stat("lean-compared")
         model = a.get("model")
@@ -770,6 +855,12 @@ def flush_lean(ctx, batch):
         if a.get("schema_checks") is False or a.get("schema_checks_exec") is False:
             ctx.fail("corr:valid-schema-fails-schemaChecksB", "the computable schema hypotheses of the soundness theorem "
                      "(Spec/SchemaChecks.lean) are false on a schema that build_schema + validate accept",
+                     c.replay_data({"label": label}), kind="correspondence")
+        # schema hypothesis `FieldOwners` of accepted_cannot_go_wrong_merged (MergeSafe derived from the overlap rule)
+        ctx.stat("field-owners:%s" % a.get("field_owners"))
+        if a.get("field_owners") is False:
+            ctx.fail("corr:valid-schema-fails-fieldOwnersB", "a schema that build_schema + validate accept has a type other than an "
+                     "object / interface type carrying fields in its dump (hypothesis FieldOwners of Props/C05_overlap.lean)",
                      c.replay_data({"label": label}), kind="correspondence")
         if (a.get("validdoc_r") if "validdoc_r" in a else a.get("validdoc")) is False:
             ctx.fail("corr:accepted-but-not-ValidDoc:%s" % (a.get("validdoc_why") or "?"),
